@@ -1,6 +1,7 @@
 import AsynqModel.Sexp
 import AsynqModel.Lib.Contexts
 import AsynqModel.Lib.ContextsWith
+import AsynqModel.Lib.ContextsHooks
 /-! driver glue for mode `ctxhist` (histories of context operations on one task; properties C06 / C07) -/
 namespace AsynqModel.Drv.Contexts
 open AsynqModel AsynqModel.Contexts
@@ -104,7 +105,7 @@ def nameClause (obs : List Obs) (clause : String) : String :=
   else clause
 
 /-- `hdr` = `(typed b) (ctxs ...) (vars n)`; `body` = one `(obs ...)` line per executed operation, then `(final ...)` -/
-def handle (id : Nat) (hdr : List Sexp) (body : List Sexp) : String :=
+def handlePlain (id : Nat) (hdr : List Sexp) (body : List Sexp) : String :=
   match hdr? hdr, (body.dropLast).mapM obs?, body.getLast? with
   | some h, some impl, some fin =>
     let ops := impl.map (·.op)
@@ -177,5 +178,81 @@ def handleW (id : Nat) (hdr : List Sexp) (body : List Sexp) : String :=
       s!"R {id} CORR={cstr} SPEC={f spec} SPECM={f specm} | {d}"
     | _, _ => s!"R {id} CORR=diff SPEC=ok SPECM=ok | unparsable ctxwith header"
   | _, _, _ => s!"R {id} CORR=diff SPEC=ok SPECM=ok | unparsable ctxwith case"
+
+/-! ### mode `ctxhist` with a 4th header field `(hooks ...)`: histories over contexts whose hooks enter / leave member
+    contexts, and with `revisit` operations (Lib/ContextsHooks.lean) -/
+
+def hact? : Sexp → Option HAct
+  | .list [.atom "enter", m] => m.nat?.map .enter
+  | .list [.atom "exit", m] => m.nat?.map .exit
+  | _ => none
+
+def hdef? : Sexp → Option HDef
+  | .list [.list r, .list p] => do some { onR := (← r.mapM hact?), onP := (← p.mapM hact?) }
+  | _ => none
+
+def hop? : Sexp → Option HOp
+  | .list [.atom "revisit"] => some .revisit
+  | x => (op? x).map .base
+
+def obsH? : Sexp → Option ObsH
+  | .list [.atom "obs", op, .list (.atom "calls" :: cls), .list [.atom "exc", e], .list (.atom "vals" :: vs),
+      .list [.atom "status", st]] => do
+    some { op := (← hop? op), calls := (← cls.mapM call?), esc := (← esc? e), vals := (← vs.mapM Sexp.nat?), status := (← status? st) }
+  | _ => none
+
+def firstDiffH (a b : List ObsH) (i : Nat := 0) : Option (Nat × String) :=
+  match a, b with
+  | [], [] => none
+  | x :: xs, y :: ys => if x == y then firstDiffH xs ys (i+1) else some (i, s!"model={repr x} impl={repr y}")
+  | x :: _, [] => some (i, s!"model={repr x} impl=<missing>")
+  | [], y :: _ => some (i, s!"model=<missing> impl={repr y}")
+
+def firstEscapeH (obs : List ObsH) : Option Exc :=
+  match obs.find? escapesH with
+  | some ob => (match ob.esc with | .exc e => some e | _ => none)
+  | none => none
+
+/-- the line after the history, as an observation: (status, what value() raised, clean, next computation ok) -/
+def finalH? : Sexp → Option (Option Status × String × Nat × Nat)
+  | .list [.atom "final", .list [.atom "status", st], .list [.atom "escaped", esc], .list [.atom "clean", c],
+      .list [.atom "next", n]] => do
+    some (status? st, toString esc, (← c.nat?), (← n.nat?))
+  | _ => none
+
+/-- the plain observer on the part of a history with hooks it can judge: histories WITHOUT hook actions and revisits are
+    judged by `spec`; with them only the scheduler part (`specH`) and the final line are -/
+def handleH (id : Nat) (hdr : List Sexp) (body : List Sexp) : String :=
+  match hdr, (body.dropLast).mapM obsH?, body.getLast?.bind finalH? with
+  | [t, c, v, .list (.atom "hooks" :: hs)], some impl, some (fst, fesc, fclean, fnext) =>
+    match hdr? [t, c, v], hs.mapM hdef? with
+    | some h, some hd =>
+      if !wfH h.defs hd then s!"R {id} CORR=diff SPEC=ok SPECM=ok | ctxhist hooks: a member has hook actions of its own" else
+      let ops := impl.map (·.op)
+      let s0 := init h.defs h.nvars
+      let model := runH (codeCfg h.typed) h.defs hd s0 ops
+      let sf := finalStateH (codeCfg h.typed) h.defs hd s0 ops
+      let corr := firstDiffH model impl
+      let crashed := (firstEscapeH model).isSome
+      let expEsc := match firstEscapeH model with
+        | some e => excTok e
+        | none => (match sf.status with | .err _ => "task-error" | _ => "none")
+      let finCorr := fst == some sf.status && (fesc == expEsc || (expEsc == "other" && fesc.startsWith "other")) &&
+        fclean == (if crashed then 0 else 1) && fnext == 1
+      let spec0 := specClauseH impl
+      let finSpec := fclean == 1 && fnext == 1 && (fesc == "none" || fesc == "task-error")
+      let spec := if spec0 != "ok" then spec0 else if !finSpec then "nothing-else-escapes" else "ok"
+      let specm := if specClauseH model != "ok" then specClauseH model else if crashed then "nothing-else-escapes" else "ok"
+      let cstr := match corr with | none => (if finCorr then "ok" else "diff") | some _ => "diff"
+      let d := match corr with
+        | none => if finCorr then "" else s!"final line: model status {repr sf.status} escaped {expEsc} crashed {crashed}"
+        | some (i, s) => (s!"obs {i}: {s}".replace "\n" " ")
+      let f (s : String) := if s == "ok" then "ok" else "fail:" ++ s
+      s!"R {id} CORR={cstr} SPEC={f spec} SPECM={f specm} | {d}"
+    | _, _ => s!"R {id} CORR=diff SPEC=ok SPECM=ok | unparsable ctxhist hooks header"
+  | _, _, _ => s!"R {id} CORR=diff SPEC=ok SPECM=ok | unparsable ctxhist hooks case"
+
+def handle (id : Nat) (hdr : List Sexp) (body : List Sexp) : String :=
+  if hdr.length == 4 then handleH id hdr body else handlePlain id hdr body
 
 end AsynqModel.Drv.Contexts
